@@ -34,3 +34,34 @@ func VerifC18DM(i int) {
 	zv.Assert(err == nil && res2 != nil && res2.GetText() == content, "pure-barcode read")
 	zv.Reach("c18dm")
 }
+
+// VerifC09DMImage: concrete content i written at the requested size, padded by pad white pixels,
+// turned by rot quarter turns, read through the normal locating path: the content, or a reader
+// error — never other content; upright with a white border it must be read.
+func VerifC09DMImage(i, size, pad, rot int) {
+	content := verifC18Contents[i]
+	m, err := NewDataMatrixWriter().Encode(content, gozxing.BarcodeFormat_DATA_MATRIX, size, size, nil)
+	zv.Assert(err == nil && m != nil, "content is accepted")
+	w, h := m.GetWidth(), m.GetHeight()
+	p, _ := gozxing.NewBitMatrix(w+2*pad, h+2*pad)
+	for y := 0; y < h; y++ {
+		for x := 0; x < w; x++ {
+			if m.Get(x, y) {
+				p.Set(x+pad, y+pad)
+			}
+		}
+	}
+	for k := 0; k < rot; k++ {
+		p.Rotate90()
+	}
+	bmp, _ := gozxing.NewBinaryBitmapFromImage(p)
+	res, e := NewDataMatrixReader().Decode(bmp, nil)
+	if e != nil {
+		_, isReaderErr := e.(gozxing.ReaderException)
+		zv.Assert(isReaderErr, "only reader exceptions")
+		zv.Assert(rot != 0 || pad < 4, "an upright clean symbol with a white border must be read")
+	} else {
+		zv.Assert(res.GetText() == content, "never different content")
+	}
+	zv.Reach("c09dmimage")
+}
